@@ -23,8 +23,9 @@ EXPLANATION = (
     "swap / tuple swap / mirrored if-else are the same input); D2 the size that grows is the new root's and grows by "
     "the other root's size; D3 `false` is returned exactly on the roots-equal path and before any store, `true` only "
     "after both stores; D4 sizes are only read/written at indices that are results of find; D5 new/reset initialise "
-    "both arrays over 0..n with parent[i]=i and size[i]=1; D6 find recurses only under parent[v]!=v, stores the "
-    "recursion result and returns parent[v]; D7 only new/reset/find/un write the two arrays. With D1+D2 the log2 "
+    "both arrays over 0..n with parent[i]=i and size[i]=1; D6 find (recursive or iterative): parent stores only at indices on v's "
+    "parent chain and only of roots (a find result or a chain term r with the fact parent[r]==r), the returned value is such a root, "
+    "recursion only on parent[x] under parent[x]!=x; D7 only new/reset/find/un write the two arrays. With D1+D2 the log2 "
     "depth bound is the classical union-by-size theorem (cited, not re-proved). NOT decided: the connectivity "
     "relation over operation histories as a value statement."
 )
